@@ -153,6 +153,35 @@ func maxParenDepth() int {
 	return lo
 }
 
+// maxCallDepth: the deepest recursion f(K) the machine accepts, searched up
+// to 20000 (0 = no limit found below that).
+func maxCallDepth() int {
+	ok := func(k int) bool {
+		e := evalfilter.New(fmt.Sprintf("function f(n) { if (n == 0) { return 0; } return f(n - 1); } return f(%d);", k))
+		if err := e.Prepare(); err != nil {
+			return false
+		}
+		_, err := e.Execute(nil)
+		return err == nil
+	}
+	if ok(20000) {
+		return 0
+	}
+	lo, hi := 1, 20000
+	if !ok(lo) {
+		return -1
+	}
+	for hi-lo > 1 {
+		mid := (lo + hi) / 2
+		if ok(mid) {
+			lo = mid
+		} else {
+			hi = mid
+		}
+	}
+	return lo
+}
+
 func dumpTables() {
 	out := map[string]interface{}{}
 
@@ -219,6 +248,7 @@ func dumpTables() {
 	out["slash_context"] = sc
 	out["inline_limit"] = inlineLimit()
 	out["max_paren_depth"] = maxParenDepth()
+	out["max_call_depth"] = maxCallDepth()
 	out["unicode_letter"] = ranges(unicode.Letter)
 	out["unicode_digit"] = ranges(unicode.Digit)
 
